@@ -81,6 +81,18 @@ CLAIMED = {
    note=TB + "SHA-256 is a Gallina transcription (Hashes.v) compared with the C++ by execution. The exponent branch of ParseFixedPoint is modelled and tested, not covered by a general theorem.",
    technique="Coq round-trip proofs on the wire codec + differential correspondence incl. structure-aware mutations",
    ref="DESIGN.md §2 C13"),
+ "C14": dict(
+   text="Theorems: base58 / base58check decode(encode x) = x (for the C++ digit-array algorithms, proved equal to the arithmetic definition), "
+        "non-alphabet characters rejected; ConvertBits 8<->5 round trip; bech32/bech32m decode(encode) = identity and EVERY single-symbol "
+        "substitution in the data part is rejected (polymod linearity + finite sweep, bound 90 characters); at the transform level: "
+        "base58chk-decode o base58chk-encode, bech32-decode o bech32(m)-encode, addr-to-scriptpubkey o scriptpubkey-to-addr are identities; "
+        "add/sub = (a +- b) mod g for a,b < g; compact-size prefix = WriteCompactSize; hex/int = the C18 codec; tagged hash = "
+        "SHA256(SHA256(tag)||SHA256(tag)||msg); the generated tf / inline name tables reach the same method except three listed names. "
+        "PARTIAL (stated): SHA-256/RIPEMD-160/SHA-1 are Gallina transcriptions checked on the standard vectors in Coq and against the C++ by "
+        "execution; Jacobi symbol proved = Euler's criterion only for n < p, odd primes p <= 61; EC transforms not modelled.",
+   note=TB + "The bech32 prefix is the built-in default 'bcrt'; base58check corruption detection is probabilistic and only tested.",
+   technique="Coq proofs on the codec algorithms and transform compositions + differential correspondence of command/inline/opcode forms",
+   ref="DESIGN.md §2 C14"),
 }
 
 NOT_YET = {}
